@@ -48,6 +48,8 @@ func c10Values() []interface{} {
 		int32(-1), int32(-6), int64(-5), -3.0, int64(1<<35 | 2), bson.A{int32(-2), D(E("b", int32(-1)))},
 		// an embedded empty document next to a non-empty one
 		bson.A{D(), D(E("b", D()))},
+		// field names that look like indexes, beyond the end of the array that holds their documents
+		bson.A{D(E("5", int32(1))), D(E("7", int32(2)), E("b", int32(1)))}, D(E("5", int32(1)), E("b", bson.A{D(E("7", int32(2)))})),
 	}
 }
 
@@ -71,7 +73,7 @@ func c10Docs() []bson.D {
 func c10Leaves() []c10Leaf {
 	D := func(e ...bson.E) bson.D { return bson.D(e) }
 	E := func(k string, v interface{}) bson.E { return bson.E{Key: k, Value: v} }
-	paths := []string{"a", "a.b", "a.0", "a.b.0", "a.0.b", "c"}
+	paths := []string{"a", "a.b", "a.0", "a.b.0", "a.0.b", "c", "a.5", "a.b.7"}
 	cmpOperands := []interface{}{nil, int32(1), int32(2), int64(1), 1.5, math.NaN(), "a", "b", true, primitive.DateTime(1000), oid(1),
 		D(E("b", int32(1))), bson.A{int32(1), int32(2)}, bson.A{}, bson.D{}, int32(-1)}
 	lists := []bson.A{{int32(1)}, {int32(1), "a"}, {nil}, {int32(2), 1.5}, {bson.A{int32(1), int32(2)}}, {D(E("b", int32(1)))}, {}, {"b", true, int32(2)}}
